@@ -141,6 +141,7 @@ fn run_job_inner(job: &Value) -> String {
                 verif::install(false, budget);
             }
             let calls0 = wdb.calls.get();
+            wdb.log_calls.set(trace && job["dbcalls"].as_bool().unwrap_or(false));
             wdb.panic_at
                 .set(op["panic_at"].as_u64().map(|n| calls0 + n));
             let cb_count = Cell::new(0u64);
